@@ -238,6 +238,49 @@ theorem strict_never_picks_trusted (N : Net Addr Prefix) (ranges : List Prefix) 
     · simp [hb] at hp; subst hp; exact hb
     · simp [hb] at hp
 
+/-- **containment.** Whatever the configuration and the headers, the client address is the peer's own
+    address (or empty when the socket address is unusable) or the textual form of an address that
+    parses from one comma-separated element of one configured header — never anything else. -/
+theorem client_ip_is_peer_or_header_element (N : Net Addr Prefix) (cfg : Cfg Prefix) (c : Conn)
+    (w : List (Bytes × Bytes)) :
+    (serve N cfg c w).clientIP = strOr N [] (peerAddr N c) ∨
+    ∃ name p a, name ∈ effectiveHeaders cfg ∧ p ∈ elements (wireValues w (canonKey name)) ∧
+      partAddr N p = some a ∧ (serve N cfg c w).clientIP = N.toString a := by
+  cases hs : serverTrusts N cfg c with
+  | false => exact Or.inl (untrusted_client_ip N cfg c w hs)
+  | true =>
+    by_cases hst : cfg.strict = 0
+    · obtain ⟨ip, hip, hc⟩ := trusted_leftmost_valid N cfg c w hs hst
+      cases hl : leftmostValid N ((configuredValues w (effectiveHeaders cfg)).flatMap (splitOn comma)) with
+      | none => left; rw [hc, hl, hip]; rfl
+      | some a =>
+        right
+        obtain ⟨i, p, hp, hpa, _⟩ := (leftmostValid_some_iff N _ a).mp hl
+        have hmem := List.mem_of_getElem? hp
+        obtain ⟨v, hv, hpv⟩ := List.mem_flatMap.mp hmem
+        unfold configuredValues at hv
+        obtain ⟨name, hname, hvn⟩ := List.mem_flatMap.mp hv
+        refine ⟨name, p, a, hname, ?_, hpa, by rw [hc, hl]; rfl⟩
+        rw [elements_eq_flatMap _ (List.ne_nil_of_mem hvn)]
+        exact List.mem_flatMap.mpr ⟨v, hvn, hpv⟩
+    · obtain ⟨ip, ranges, hip, _, hc⟩ := strict_rightmost_untrusted N cfg c w hs (Nat.pos_of_ne_zero hst)
+      cases hl : (effectiveHeaders cfg).findSome?
+          (fun name => rightmostUntrusted N ranges (elements (wireValues w (canonKey name)))) with
+      | none => left; rw [hc, hl, hip]; rfl
+      | some a =>
+        right
+        obtain ⟨name, hname, hr⟩ := List.exists_of_findSome?_eq_some hl
+        obtain ⟨i, p, hp, hpa, _⟩ := (rightmostUntrusted_some_iff N ranges _ a).mp hr
+        refine ⟨name, p, a, hname, List.mem_of_getElem? hp, ?_, by rw [hc, hl]; rfl⟩
+        unfold untrustedAddr at hpa
+        cases hpp : partAddr N p with
+        | none => simp [hpp] at hpa
+        | some b =>
+          simp only [hpp] at hpa
+          split at hpa
+          · cases hpa
+          · cases hpa; rfl
+
 /-- join-then-split is element-wise split: the elements are those of each value, in order -/
 theorem elements_are_per_value (vs : List Bytes) (h : vs ≠ []) :
     elements vs = vs.flatMap (splitOn comma) := elements_eq_flatMap vs h
@@ -365,6 +408,9 @@ example : (serve toyNet exCfg exTrusted exHeaders).fwd =
     some ⟨some (some [b!"junk, 9.9.9.9:1234 ,10.0.0.2,  [::1]:80,1.2.3.4%eth0, 10.0.0.1"]),
           some (some [b!"wss"]), some (some [b!"evil.test"])⟩ := by decide
 example : (joinWith commaSpace [b!"a", b!""]).isEmpty = false := by decide
+-- client_ip_is_peer_or_header_element: here the second disjunct, with the element " 9.9.9.9:1234 "
+example : b!" 9.9.9.9:1234 " ∈ elements (wireValues exHeaders (canonKey b!"X-Forwarded-For")) ∧
+    partAddr toyNet b!" 9.9.9.9:1234 " = some b!"9.9.9.9" := by decide
 -- elements_are_per_value
 example : elements [b!"a,b", b!"", b!"c"] = [b!"a", b!"b", b!"", b!"c"] := by decide
 -- trimSpace_never_runs_out_of_fuel: NBSP, EM SPACE and ASCII blanks around an address
